@@ -115,6 +115,7 @@ def build(case):
 
     inv = case["invalid"]
     groups = []
+    intended_groups = []
     for gi, g in enumerate(case["groups"]):
         if inv == "hpc_type" and gi == len(case["groups"]) - 1 and gi > 0:
             hpc = HpcConfig(hpc_type="local", hpc=LocalHpcConfig())
@@ -131,8 +132,11 @@ def build(case):
         name = g["name"]
         if inv == "duplicate_group" and gi == len(case["groups"]) - 1 and gi > 0:
             name = case["groups"][0]["name"]
-        groups.append(SubmissionGroup(name=name, submitter_params=sp).dict())
+        grp = SubmissionGroup(name=name, submitter_params=sp)
+        intended_groups.append(model_view(grp))  # read off the model objects, before any serialization
+        groups.append(grp.dict())
     cfg = GenericCommandConfiguration(submission_groups=groups, **case["hooks"])
+    cfg._jv_intended_groups = intended_groups
     n = len(case["jobs"])
     pick = case["pick"] % n
     for i, j in enumerate(case["jobs"]):
@@ -170,6 +174,22 @@ def effective_invalid(case):
     if inv == "duplicate_name" and len(case["jobs"]) < 2:
         return None
     return inv
+
+
+def model_view(o):
+    """Field-by-field view of a (pydantic v1) model read through attribute access -- independent of the models' own
+    dict()/json() overrides, which are part of what the round-trip goes through."""
+    if hasattr(o, "__fields__"):
+        return {k: model_view(getattr(o, k)) for k in o.__fields__}
+    if isinstance(o, dict):
+        return {str(k): model_view(x) for k, x in o.items()}
+    if isinstance(o, (list, tuple)):
+        return [model_view(x) for x in o]
+    if isinstance(o, (set, frozenset)):
+        return sorted(model_view(x) for x in o)
+    if hasattr(o, "value") and o.__class__.__module__.startswith("jade"):
+        return o.value
+    return o if isinstance(o, (str, int, float, bool, type(None))) else str(o)
 
 
 def norm(d):
@@ -270,6 +290,19 @@ def run_case(case):
         gb = norm([g.dict() for g in cfg2.submission_groups])
         if ga != gb:
             v.append(D.viol("C17:groups-changed", f"{ga} -> {gb}"))
+        # ... and field by field against the group models as they were constructed from the generated values
+        want = cfg._jv_intended_groups
+        for label, groups_ in (("constructed", cfg.submission_groups), ("reloaded", cfg2.submission_groups)):
+            got = [model_view(g) for g in groups_]
+            if got != want:
+                diff = sorted({f"{k}.{k2}" if isinstance(x.get(k), dict) else k
+                               for x, y in zip(want, got) for k in x
+                               for k2 in (x[k] if isinstance(x[k], dict) and isinstance(y.get(k), dict) else [None])
+                               if (x[k].get(k2) != y[k].get(k2) if k2 is not None else x[k] != y.get(k))})
+                v.append(D.viol(f"C17:group-field-changed|{label}|{'+'.join(diff)[:80]}",
+                                f"{label} configuration: submission group fields differ from the values given: {diff}; "
+                                f"given {want} got {got}"[:1500]))
+                break
         for k in ("setup_command", "teardown_command", "node_setup_command", "node_teardown_command"):
             if getattr(cfg, k) != getattr(cfg2, k) or getattr(cfg, k) != case["hooks"][k]:
                 v.append(D.viol(f"C17:lifecycle-command-changed|{k}", f"{case['hooks'][k]!r} -> {getattr(cfg, k)!r} -> {getattr(cfg2, k)!r}"))
